@@ -22,6 +22,17 @@ import (
 func genC19() *rapid.Generator[*Spec] {
 	return rapid.Custom(func(t *rapid.T) *Spec {
 		s := genC19base().Draw(t, "base")
+		// a type alias of the marker type is a type declaration, not a provider set
+		if rapid.IntRange(0, 99).Draw(t, "settypealias") < 15 {
+			if s.PkgExtra == nil {
+				s.PkgExtra = map[int]string{}
+			}
+			if s.PkgExtraImports == nil {
+				s.PkgExtraImports = map[int][]string{}
+			}
+			s.PkgExtra[0] += "type ZzSetType = wire.ProviderSet\n\ntype ZzSetDef wire.ProviderSet\n"
+			s.PkgExtraImports[0] = append(s.PkgExtraImports[0], "\"github.com/google/wire\"")
+		}
 		// some injector files are guarded by a second tag, which every command
 		// of this check passes: check and show must honour -tags like gen does
 		for k := range s.Injectors {
